@@ -1,6 +1,8 @@
 import MdIt.Props.C02
 open MdIt.Nesting
 #check @currentSites_raising
+#check @sites_toList
+#check @over_limit_degrades
 #check @over_limit_degrades_block
 #check @over_limit_degrades_inline
 #check @over_limit_degrades_skip
@@ -31,6 +33,8 @@ open MdIt.Nesting
 #check @trace_prefix_bounded
 #check @trace_of_run
 #print axioms currentSites_raising
+#print axioms sites_toList
+#print axioms over_limit_degrades
 #print axioms over_limit_degrades_block
 #print axioms over_limit_degrades_inline
 #print axioms over_limit_degrades_skip
@@ -60,3 +64,8 @@ open MdIt.Nesting
 #print axioms trace_bounded
 #print axioms trace_prefix_bounded
 #print axioms trace_of_run
+
+#check @gen_levelSites
+#print axioms gen_levelSites
+#check @gen_sites_raising
+#print axioms gen_sites_raising
